@@ -366,20 +366,24 @@ _HANG_SEEN = [False]
 
 
 def impl(case):
+    import numpy, pandas, fsic, fsic.extensions       # noqa: F401,E401 - loaded before the clock starts
     al = case['aliases']
-    old = signal.signal(signal.SIGALRM, _alarm)
-    # construction takes milliseconds; a constructor that is still running after a second does not return (once that has been seen
-    # in this worker, further such cases are cut short)
-    signal.setitimer(signal.ITIMER_REAL, 0.15 if _HANG_SEEN[0] else 1.5)
+    # Construction takes milliseconds of CPU; a constructor that has burnt a full second of this process's CPU time does not
+    # return (the clock is the process's own CPU time, so a busy machine cannot fake a hang). Once seen in this worker,
+    # further such cases are cut short.
+    old = signal.signal(signal.SIGVTALRM, _alarm)
     try:
         try:
+            signal.setitimer(signal.ITIMER_VIRTUAL, 0.15 if _HANG_SEEN[0] else 1.0)
             a_obj, a_init = _build(case, True)
+            signal.setitimer(signal.ITIMER_VIRTUAL, 0)
         except _Hang:
+            signal.setitimer(signal.ITIMER_VIRTUAL, 0)
             _HANG_SEEN[0] = True
             return {'init': 'hang', 'steps': []}
     finally:
-        signal.setitimer(signal.ITIMER_REAL, 0)
-        signal.signal(signal.SIGALRM, old)
+        signal.setitimer(signal.ITIMER_VIRTUAL, 0)
+        signal.signal(signal.SIGVTALRM, old)
     res = {'init': a_init, 'steps': []}
     cyc = cyclic(al)
     if cyc:
@@ -388,7 +392,7 @@ def impl(case):
     res['twin_init'] = t_init
     if a_obj is None or t_obj is None:
         return res
-    res['aliases'] = [[k, v] for k, v in a_obj.__dict__['aliases'].items()]
+    res['aliases'] = [[k, v] for k, v in (a_obj.__dict__.get('aliases') or {}).items()]
     declared = list(case['names'])
     res['st0'] = cc.observe(a_obj, declared)
     res['twin_diff0'] = cc.diff_state(res['st0'], cc.observe(t_obj, declared))
@@ -408,6 +412,7 @@ def impl(case):
     # storage: the aliased object holds exactly what the twin holds, plus the two bookkeeping entries
     ka, kt = set(a_obj.__dict__), set(t_obj.__dict__)
     res['dict_extra'] = sorted(ka - kt)
+    res['dict_extra_arrays'] = sorted(k for k in ka - kt if hasattr(a_obj.__dict__[k], 'nbytes'))
     res['dict_missing'] = sorted(kt - ka)
     res['nbytes'] = [int(sum(v.nbytes for k, v in o.__dict__.items() if k.startswith('_') and hasattr(v, 'nbytes'))) for o in (a_obj, t_obj)]
     # reads
@@ -481,8 +486,19 @@ def _k_compare(case, m, o):
         if me != fr:
             return 'export: model=%s impl=%s' % (me, fr if isinstance(fr, str) else 'frame')
         return None
-    if [t for t, _ in me] != fr['cols']:
+    if len(me) != len(fr['cols']):
         return 'export titles: model=%s impl=%s' % ([t for t, _ in me], fr['cols'])
+    plain = o['frame_twin']['cols'] if isinstance(o.get('frame_twin'), dict) and len(o['frame_twin']['cols']) == len(me) else None
+    al, prefd = case['aliases'], {chain_end(case['aliases'], p) for p in case['preferred']}
+    for j, ((t, _), tr) in enumerate(zip(me, fr['cols'])):
+        if t == tr:
+            continue
+        # WHICH of several names titles a column is fixed by the property only where a preferred name is declared for that
+        # variable; elsewhere any of the column's names is as good as the model's choice (no verdict on such a difference)
+        c = plain[j] if plain else None
+        if c is not None and c not in prefd and (tr == c or chain_end(al, tr) == c) and not shadowed(case):
+            continue
+        return 'export titles: model=%s impl=%s' % ([x for x, _ in me], fr['cols'])
     for j, (t, src) in enumerate(me):
         if series.get(src) != fr['data'][j]:
             return 'export column %d (%s): model fills it from %s, impl data differs' % (j, t, src)
@@ -581,7 +597,7 @@ def _oracle(case, obs):
     ends = [chain_end(al, k) for k, _ in case['ivs']]
     if len(set(ends)) != len(ends):
         # two keywords for one variable: no call on the twin is "the same operation"; only the storage claim is judged
-        if obs['init'] == 'ok' and obs.get('twin_init') == 'ok' and (obs.get('dict_extra') != ['aliases', 'preferred_names'] or obs.get('dict_missing')):
+        if obs['init'] == 'ok' and obs.get('twin_init') == 'ok' and (obs.get('dict_extra_arrays') or obs.get('dict_missing')):
             bad('storage|extra-entries', 'the aliased object holds %s more / %s fewer entries than its twin' % (obs.get('dict_extra'), obs.get('dict_missing')))
         return fails
     # ---- constructor keywords through aliases = the same keywords through the variables
@@ -602,8 +618,10 @@ def _oracle(case, obs):
             bad('%s|differs-from-twin' % op[0], 'op %d %s through %s: state differs from the twin: %s' % (i, op[0], c09._target_names(op), stp['twin_diff'][:200]))
             break
     # ---- no additional storage
-    if obs.get('dict_extra') != ['aliases', 'preferred_names'] or obs.get('dict_missing'):
-        bad('storage|extra-entries', 'the aliased object holds %s more / %s fewer entries than its twin' % (obs.get('dict_extra'), obs.get('dict_missing')))
+    if obs.get('dict_extra_arrays') or obs.get('dict_missing') or len(obs.get('dict_extra', [])) > 4:
+        # the mixin's own bookkeeping (the alias map, the preferred names) is no series; anything array-like is storage
+        bad('storage|extra-entries', 'the aliased object holds %s more (arrays: %s) / %s fewer entries than its twin' % (
+            obs.get('dict_extra'), obs.get('dict_extra_arrays'), obs.get('dict_missing')))
     elif obs.get('nbytes') and obs['nbytes'][0] != obs['nbytes'][1]:
         bad('storage|extra-bytes', 'series storage %s bytes vs %s in the twin' % tuple(obs['nbytes']))
     # ---- reads
